@@ -20,6 +20,9 @@ ASSUMPTIONS = ["standard model of floating-point arithmetic for the rounding bou
 U = Fr(1, 2 ** 53)
 B1 = 13 * U + 12 * U * U
 BOUND = 3 * B1 * (1 + 4 * B1)
+U32 = Fr(1, 2 ** 24)
+B32 = 13 * U32 + 12 * U32 * U32
+BOUND32 = 3 * B32 * (1 + 4 * B32)
 
 
 def blend(xs, ys, grid, x, y):
@@ -115,6 +118,38 @@ def generate(rng, tier):
             shape, defx, defy, xs, ys, flat = gen_grid(rng, S)
             qx, qy = queries2(rng, xs, ys, rng.randint(2, 8), S)
             cases.append(build_line(rng, S, shape, defx, defy, xs, ys, flat, qx, qy, False))
+    # f32 elements: every value an f32; model at IEEE binary32 (bit for bit), held to the composed bound with u = 2^-24
+    from props import c01
+    import vlib
+    for _ in range(gen.N(tier, 100, 2500)):
+        gx, gy = c01.gen_case_g(rng), c01.gen_case_g(rng)
+        if not gx or not gy:
+            continue
+        xs, ys = gx[2][:rng.choice([2, 3, 5, 12])], gy[2][:rng.choice([2, 3, 4, 9])]
+        if len(xs) < 2 or len(ys) < 2:
+            continue
+        shape = [len(xs), len(ys)] + gen.trailing_shape(rng, 1)
+        flat = [vlib.f32_round(rng.uniform(-1, 1) * 10.0 ** rng.randint(-3, 5)) for _ in range(gen.shape_size(shape))]
+        qx = [q for q in gx[4] if xs[0] <= q <= xs[-1]][:6]
+        qy = [q for q in gy[4] if ys[0] <= q <= ys[-1]][:6]
+        k = min(len(qx), len(qy))
+        if k == 0:
+            continue
+        rng.shuffle(qy)
+        cases.append(build_line(rng, "G", shape, False, False, xs, ys, flat, qx[:k], qy[:k], False))
+    # i32 elements
+    for _ in range(gen.N(tier, 30, 600)):
+        nx, ny = rng.choice([2, 3, 4, 7]), rng.choice([2, 3, 5])
+        shape = [nx, ny] + gen.trailing_shape(rng, 1)
+        xs = gen.axis_i(rng, nx, rng.choice(["unit", "uniform", "random", "gappy", "small"]))
+        ys = gen.axis_i(rng, ny, rng.choice(["unit", "uniform", "random", "gappy", "small"]))
+        flat = [rng.randint(-1000, 1000) for _ in range(gen.shape_size(shape))]
+        k = rng.randint(2, 6)
+        qx = [rng.choice(gen.queries_i(rng, xs, 8)) for _ in range(k)]
+        qy = [rng.choice(gen.queries_i(rng, ys, 8)) for _ in range(k)]
+        c = build_line(rng, "J", shape, False, False, xs, ys, flat, qx, qy, False)
+        c["meta"]["int"] = True
+        cases.append(c)
     # i64 elements: judged by the model correspondence only (integer division is not the real-number statement)
     for _ in range(gen.N(tier, 50, 1200)):
         nx, ny = rng.choice([2, 3, 4, 7]), rng.choice([2, 3, 5])
@@ -162,12 +197,13 @@ def oracle(case, res, ext=False):
         return None
     got = res.floats()
     L = gen.lanes_of(m["shape"], 2)
+    bound_ = BOUND32 if case["line"].startswith("G ") else BOUND
     for k, (g, e) in enumerate(zip(got, exact)):
         qi, lane = divmod(k, L) if L else (0, 0)
         i, j = cells[qi]
         M = max(abs(grid[a][b][lane]) for a in (i, i + 1) for b in (j, j + 1))
-        if not math.isfinite(g) or abs(Fr(g) - e) > BOUND * M:
-            return f"value #{k}: computed {g} vs exact {float(e)} exceeds the bound {float(BOUND * M):.3e}"
+        if not math.isfinite(g) or abs(Fr(g) - e) > bound_ * M:
+            return f"value #{k}: computed {g} vs exact {float(e)} exceeds the bound {float(bound_ * M):.3e}"
     return None
 
 
